@@ -51,7 +51,7 @@ var Profiles = map[string]Profile{
 	"fail": {Types: []string{"T1", "T2", "T3", "T4"}, Ifaces: []string{"I1"}, Names: []string{"", "", "a"}, Subs: []string{"", "", "", "s"},
 		MaxIn: 2, MaxOut: 2, MaxTIn: 2, MaxInputs: 2, MaxConvs: 4, Forms: []string{"pos", "struct", "ptr", "built"}, FailProb: 0.4, OnceProb: 0.15,
 		MultiMax: -1, Modes: []string{"call"}, TargetOuts: 1},
-	"redef": {Types: []string{"T1", "T2", "T3", "T4"}, Names: []string{"", "", "a", "b"}, Subs: []string{""},
+	"redef": {Types: []string{"T1", "T2", "T3", "T4"}, Names: []string{"", "", "", "a", "a", "b", "x-y"}, Subs: []string{""},
 		MaxIn: 1, MaxOut: 1, MaxTIn: 2, MaxInputs: 2, MaxConvs: 4, Forms: []string{"pos", "struct", "ptr"}, FailProb: 0, OnceProb: 0.1,
 		MultiMax: 0, Modes: []string{"redefine"}, TargetOuts: 2, DefProb: 0.25},
 	"redeffail": {Types: []string{"T1", "T2", "T3", "T4"}, Names: []string{"", "", "a", "b"}, Subs: []string{""},
@@ -69,10 +69,10 @@ var Profiles = map[string]Profile{
 	"oncey": {Types: []string{"T1", "T2", "T3", "T4"}, Ifaces: []string{"I1"}, Names: []string{"", "", "", "a"}, Subs: []string{"", "", "", "s"},
 		MaxIn: 1, MaxOut: 2, MaxTIn: 3, MaxInputs: 2, MaxConvs: 5, Forms: []string{"pos", "struct", "ptr", "ptr", "built"}, FailProb: 0.1, OnceProb: 0.6,
 		MultiMax: 1, Modes: []string{"call"}, TargetOuts: 1},
-	"built": {Types: []string{"T1", "T2", "T3", "T4"}, Ifaces: []string{"I1"}, Names: []string{"", "", "a", "b"}, Subs: []string{"", "", "s"},
+	"built": {Types: []string{"T1", "T2", "T3", "T4"}, Ifaces: []string{"I1"}, Names: []string{"", "", "", "a", "a", "b", "x-y"}, Subs: []string{"", "", "s"},
 		MaxIn: 2, MaxOut: 2, MaxTIn: 3, MaxInputs: 3, MaxConvs: 4, Forms: []string{"built"}, FailProb: 0.15, OnceProb: 0.15,
 		MultiMax: -1, Modes: []string{"call", "call", "call", "redefine"}, TargetOuts: 2},
-	"wild": {Types: []string{"T1", "T2", "T3", "T4", "T5", "U1"}, Ifaces: []string{"I1", "I2", "I12"}, Names: []string{"", "", "a", "b", "c"}, Subs: []string{"", "", "", "s", "s", "t", "s=x"},
+	"wild": {Types: []string{"T1", "T2", "T3", "T4", "T5", "U1"}, Ifaces: []string{"I1", "I2", "I12"}, Names: []string{"", "", "", "a", "a", "b", "b", "c", "x-y", "_z"}, Subs: []string{"", "", "", "s", "s", "t", "s=x"},
 		MaxIn: 3, MaxOut: 3, MaxTIn: 3, MaxInputs: 4, MaxConvs: 5, Forms: []string{"pos", "struct", "ptr", "built"}, FailProb: 0.1, OnceProb: 0.2,
 		MultiMax: -1, Modes: []string{"call", "call", "convert", "redefine"}, GenProb: 0.15, DefProb: 0.2, BadProb: 0.1, DupInputs: true, TargetOuts: 2},
 }
